@@ -61,6 +61,14 @@ def _bufsize_job(comm, shape, nprocs, layouts):
     return int(h.bufferSize)
 
 
+def _construct_job(comm, shape, nprocs, layouts):
+    try:
+        h, _ = sl.handler_job(comm, shape, nprocs, layouts)
+        return "ok"
+    except RuntimeError as ex:
+        return "refused: %s" % ex
+
+
 def has_idle_rank(c):
     """Over-decomposed grids (more processes than points along a direction): does some rank own nothing in any layout?
     (Such ranks used to take themselves for the plot-only rank and skip every collective - fixed, see known_findings.json;
@@ -310,6 +318,8 @@ def run(ctx):
     ctx.log("replayed %d configurations -> %d recorded transpose calls" % (len(chosen), len(events)))
     # larger random cases (code -> spec beyond the model box)
     nbig = 25 if quick else 300
+    nrefuse = [0, 0]
+    from mpi4py import MPI
     made = 0
     tries = 0
     while made < nbig and tries < nbig * 40:
@@ -333,6 +343,35 @@ def run(ctx):
         made += 1
         run_config(ctx, c, rng, DTYPES[made % 3], bool(made % 2), events, meta)
     ctx.extra["random_large_configurations"] = made
+    # layout sets that are NOT connected by single-hop transposes: the constructor must refuse them on every rank; if it accepts one,
+    # the property applies ("all sets of dimension orderings that the handler accepts") and every pair is judged as usual
+    t2 = 0
+    while nrefuse[0] + nrefuse[1] < (12 if quick else 120) and t2 < 5000:
+        t2 += 1
+        nd = rng.choice([3, 4])
+        sh = [rng.randint(2, 6) for _ in range(nd)]
+        lays = [[d + 1 for d in o] for o in rng.sample(sl.all_perms(nd), rng.randint(3, 5))]
+        npr = [rng.randint(2, 3) for _ in range(2)]
+        P = npr + [1] * (nd - 2)
+        c = {"nd": nd, "sh": sh, "np": npr, "lays": lays}
+        if any(P[i] > sh[o[i] - 1] for o in lays for i in range(nd)) or connected({str(i): [d - 1 for d in o] for i, o in enumerate(lays)}, npr):
+            continue
+        n = int(np.prod(npr))
+        res = MPI.run(n, _construct_job, args=(sh, npr, names(c)))
+        outs = set(res.values) if res.ok else set()
+        if outs == {"ok"}:
+            nrefuse[1] += 1
+            run_config(ctx, c, rng, DTYPES[t2 % 3], bool(t2 % 2), events, meta)
+        elif res.ok and len(outs) == 1 and "connected" in next(iter(outs)):
+            nrefuse[0] += 1
+        else:
+            ctx.violation({"kind": "constructor", "what": "disconnected-set-not-refused-uniformly"},
+                          "layout set %s on grid %s, shape %s is not connected; constructor outcome per rank: %s %s" % (
+                              lays, npr, sh, sorted(outs), res.describe()[:300]), {"cfg": c})
+    ctx.extra["disconnected_layout_sets_refused_by_the_constructor"] = nrefuse[0]
+    ctx.extra["disconnected_layout_sets_accepted_by_the_constructor"] = nrefuse[1]
+    if nrefuse[0] + nrefuse[1] == 0:
+        raise Machinery("vacuity: no disconnected layout set was offered to the constructor")
     # validate in batches
     B = 6000
     for s in range(0, len(events), B):
